@@ -1,4 +1,99 @@
-import Cpl.Model.Evolve2D
+import Cpl.Spec.Torus
+import Cpl.Lemmas.Evolve2D
+
+/-!
+# C02 — 2D evolution is the synchronous update of a torus (Moore / von Neumann)
+
+For all grid shapes `R × C ≥ 1 × 1` (square or not), radii `0 ≤ r ≤ min(R, C)`, both neighbourhood
+types, all grids and all rule callables (pure, cell- or time-dependent, or stateful: the rule state
+is threaded through the calls in the order the code makes them).
+-/
+
 namespace Cpl.C02
-theorem placeholder : True := trivial
+open Cpl Cpl.Spec Py
+
+variable {σ α : Type}
+
+/-- **Index wrap**: the index list the code builds for an axis of length `n` (high side wrapped by
+    subtraction, low side left negative for NumPy) resolves to positions `start - r + k` modulo `n`. -/
+theorem axisIdx_resolve (n start len r k : Nat) (hr : r ≤ n) (hb : start + len ≤ n) (hk : k < len + 2 * r) :
+    ((axisIdx n start len r)[k]?).map (resolve n) = some ((start + k + n - r) % n) := by
+  sorry
+
+theorem axisIdx_length (n start len r : Nat) : (axisIdx n start len r).length = len + 2 * r := by
+  sorry
+
+/-- **The von Neumann mask** masks exactly the positions at Manhattan distance greater than `r`
+    from the centre — for every radius, including `r = 0` (nothing masked). -/
+theorem vonNeumannMask_spec (r i j : Nat) (hi : i < 2 * r + 1) (hj : j < 2 * r + 1) :
+    ((vonNeumannMask r)[i]?.bind (·[j]?)) = some (decide (dist i r + dist j r > r)) := by
+  sorry
+
+/-- **The neighbourhood handed to the rule is the torus block** centred on the cell (masked for von Neumann). -/
+theorem getNeighbourhood_spec [Inhabited α] (g : Grid α) (R C r : Nat) (vn : Bool) (row col : Nat)
+    (hg : Rect g R C) (hR : r ≤ R) (hC : r ≤ C) (hrow : row < R) (hcol : col < C) :
+    getNeighbourhood g r vn row col = nbhd g R C r vn row col := by
+  sorry
+
+/-- The cell's own state is the centre of its block and is never masked. -/
+theorem nbhd_centre [Inhabited α] (g : Grid α) (R C r : Nat) (vn : Bool) (row col : Nat)
+    (hR : r ≤ R) (hC : r ≤ C) (hrow : row < R) (hcol : col < C) :
+    ((nbhd g R C r vn row col)[r]?.bind (·[r]?)) = some (some ((g[row]!)[col]!)) := by
+  sorry
+
+/-- **One unmemoized step is the synchronous torus update**: cells visited once each in row-major
+    order with `(block, (row, col), t)`, for every stateful rule; the result is an `R × C` grid. -/
+theorem step2_plain_eq_spec [DecidableEq α] [Inhabited α] (rule : Rule2 σ α) (g : Grid α) (R C r : Nat)
+    (vn : Bool) (t : Nat) (cs : Caches2 α) (s : σ) (hg : Rect g R C) (hR1 : 1 ≤ R) (hC1 : 1 ≤ C)
+    (hR : r ≤ R) (hC : r ≤ C) :
+    Cpl.step2 .plain rule r vn g t cs s
+      = ((Spec.step2 rule g R C r vn t s).1, cs, (Spec.step2 rule g R C r vn t s).2) := by
+  sorry
+
+theorem step2_rect [Inhabited α] (rule : Rule2 σ α) (g : Grid α) (R C r : Nat) (vn : Bool) (t : Nat) (s : σ) :
+    Rect (Spec.step2 rule g R C r vn t s).1 R C := by
+  sorry
+
+/-- **`evolve2d` with memoization off equals the specification run** for both known neighbourhood types. -/
+theorem evolve2dFixed_plain_eq_spec [DecidableEq α] [Inhabited α] (hist : List (Grid α)) (init : Grid α)
+    (hlast : hist.getLast? = some init) (T : Nat) (hT : 1 ≤ T) (rule : Rule2 σ α) (R C r : Nat)
+    (nb : NbType) (hnb : nb ≠ .unknown) (hg : Rect init R C) (hR1 : 1 ≤ R) (hC1 : 1 ≤ C) (hR : r ≤ R)
+    (hC : r ≤ C) (s : σ) :
+    evolve2dFixed hist T rule r nb .plain s
+      = .ok (hist ++ (run2 rule R C r (decide (nb = .vonNeumann)) (T - 1) 1 init s).1,
+             (run2 rule R C r (decide (nb = .vonNeumann)) (T - 1) 1 init s).2) := by
+  sorry
+
+/-- An unknown neighbourhood type is rejected with `ValueError` as soon as a step is taken. -/
+theorem unknown_neighbourhood_rejected [DecidableEq α] [Inhabited α] (hist : List (Grid α)) (init : Grid α)
+    (hlast : hist.getLast? = some init) (T : Nat) (rule : Rule2 σ α) (r : Nat) (mode : Mode) (s : σ) :
+    (2 ≤ T → evolve2dFixed hist T rule r .unknown mode s = .error .ValueError) ∧
+    evolve2dFixed hist 1 rule r .unknown mode s = .ok (hist, s) := by
+  sorry
+
+/-- **Call trace**: with a recorder around any rule, the calls of one step are exactly one per cell in
+    row-major order, each with the torus neighbourhood of the previous grid, the cell `(row, col)` and `t`. -/
+theorem step2_logged [Inhabited α] (rule : Rule2 σ α) (g : Grid α) (R C r : Nat) (vn : Bool) (t : Nat) (s : σ)
+    (log : List (Nbhd2 α × (Nat × Nat) × Nat)) :
+    Spec.step2 (logged2 rule) g R C r vn t (s, log)
+      = ((Spec.step2 rule g R C r vn t s).1,
+         ((Spec.step2 rule g R C r vn t s).2,
+          log ++ (cellsRowMajor R C).map fun c => (nbhd g R C r vn c.1 c.2, c, t))) := by
+  sorry
+
+theorem cellsRowMajor_spec (R C : Nat) :
+    (cellsRowMajor R C).length = R * C ∧
+    ∀ i j, i < R → j < C → (cellsRowMajor R C)[i * C + j]? = some (i, j) := by
+  sorry
+
+/-! ## Guard witnesses and non-vacuity -/
+example : vonNeumannMask 0 = [[false]] := by decide
+example : vonNeumannMask 1 = [[true, false, true], [false, false, false], [true, false, true]] := by decide
+example : (vonNeumannMask 2).map (·.map fun b => if b then 1 else 0)
+    = [[1,1,0,1,1],[1,0,0,0,1],[0,0,0,0,0],[1,0,0,0,1],[1,1,0,1,1]] := by decide
+/-- a 2×3 grid with `r = 2 = R`: the row axis wraps more than once -/
+example : torusWindow [[1, 2, 3], [4, 5, 6]] 2 3 2 0 0
+    = [[2, 3, 1, 2, 3], [5, 6, 4, 5, 6], [2, 3, 1, 2, 3], [5, 6, 4, 5, 6], [2, 3, 1, 2, 3]] := by decide
+example : blockAt [[1, 2, 3], [4, 5, 6]] 2 0 0 = torusWindow [[1, 2, 3], [4, 5, 6]] 2 3 2 0 0 := by decide
+
 end Cpl.C02
